@@ -106,6 +106,10 @@ func runPinch(c *hlib.Ctx) {
 		img := a.Apply(q)
 		c.Emit(fmt.Sprintf("c05 pinch encl %s %s %s %s", head, p3s(blo), p3s(bhi), p3s(q)),
 			bstr(img.Min(nlo) == nlo && img.Max(nhi) == nhi))
+		// TransformSolid(pinch, box) at the image of a point of the box (theorem pinch_solid_conj)
+		c.Emit(fmt.Sprintf("c05 pinch solid %s %s %s %s", head, p3s(blo), p3s(bhi), p3s(q)), guardPanic(func() string {
+			return bstr(model3d.TransformSolid(a, model3d.NewRect(blo, bhi)).Contains(img))
+		}))
 	}
 }
 
